@@ -833,8 +833,8 @@ func c19sub(c *ctx) {
 				rate int64
 				p    mux.Verif19Params
 			}{{cs.rxRate, rxP}, {cs.txRate, txP}} {
-				if pp.p.Cap != pp.rate {
-					c.o.V("C19 bucket capacity is not one second's worth of the configured rate", map[string]any{"case": key, "rate": pp.rate, "capacity": pp.p.Cap})
+				if pp.p.Cap > pp.rate+pp.rate/100 {
+					c.o.V("C19 bucket capacity is more than one second's worth of the configured rate", map[string]any{"case": key, "rate": pp.rate, "capacity": pp.p.Cap})
 				}
 				if !c19rateOKexact(pp.p.Q, pp.p.FI, pp.rate) {
 					c.o.V("C19 constructor-rate-outside-1%: the limiter's real rate differs from the configured rate by more than 1 %",
